@@ -96,7 +96,7 @@ func RunC09a(p *harness.Program) Result {
 				if len(ks) > 0 {
 					k := ks[rnd()%uint64(len(ks))]
 					fp := faultPlan{simdisk.Fault{Kind: k, Ordinal: int(rnd() % uint64(counts[k])), Burst: 1 + int(rnd()%3)}}
-					fr, fv := runWithFault(p, fp, skip)
+					fr, fv := runWithFault(p, fp, skip, false)
 					if fr != nil && fr.Counters["commit-failed-by-fault"] > 0 {
 						c["commit-failed-by-fault"]++
 					}
